@@ -350,5 +350,6 @@ pub fn subs() -> Vec<Box<dyn DynSub>> {
         sub(Sub { name: "c19.parse_back_ordinal", source: Source::Gen(back_ordinal_strategy, 200_000, 3_000_000), oracle: back_oracle, known: no_known, hang_is_violation: false }),
         sub(Sub { name: "c19.parse_back", source: Source::Gen(back_strategy, 600_000, 5_000_000), oracle: back_oracle, known: no_known, hang_is_violation: false }),
         crate::props::fuzzsub::c19_fuzz(),
+        crate::props::fuzzsub::fc19(),
     ]
 }
